@@ -170,4 +170,68 @@ def runRst (k : Nat) (b : Bool) (z : α) (s : AFState α) : List (AFIn α) → A
   | [] => s
   | i :: is => runRst k b z (afStepR k b z s i true) is
 
+/-! ### Per-domain resets and the vendor reset synchroniser
+
+  Without `with_common_rst` the write side is reset by `ResetSignal(cd_from)` and the read side by
+  `ResetSignal(cd_to)`, independently; with it, each private domain's reset is the output of its own
+  `AsyncResetSynchronizer`, which releases the two domains at different times.  `afStepR2` takes the two reset
+  levels separately (`afStepR … r = afStepR2 … r r`). -/
+
+def afStepR2 (k : Nat) (buffered : Bool) (z : α) (s : AFState α) (i : AFIn α) (rw rr : Bool) : AFState α :=
+  let pN := if rw then 0 else pbinN k s i
+  let cN := if rr then 0 else cbinN k buffered s i
+  let bufLoad := buffered && i.tr && ire buffered s i.ready
+  { pbin := if i.tw then pN else s.pbin
+    pq   := if i.tw then gray pN else s.pq
+    cw1  := if i.tw then (if i.tr then mix i.mw s.cq (gray cN) else s.cq) else s.cw1
+    cw2  := if i.tw then s.cw1 else s.cw2
+    mem  := if i.tw then (if rw then List.replicate (2 ^ k) z
+                          else if wce k s i then s.mem.set (s.pbin % 2 ^ k) i.tok else s.mem) else s.mem
+    cbin := if i.tr then cN else s.cbin
+    cq   := if i.tr then gray cN else s.cq
+    pr1  := if i.tr then (if i.tw then mix i.mr s.pq (gray pN) else s.pq) else s.pr1
+    pr2  := if i.tr then s.pr1 else s.pr2
+    radr := if i.tr then cN % 2 ^ k else s.radr
+    bval := if i.tr && rr then false else if bufLoad then ireadable s else s.bval
+    bdat := if bufLoad then memOut z s else s.bdat }
+
+/-- The vendor `AsyncResetSynchronizer` (e.g. `XilinxAsyncResetSynchronizerImpl`): two flops with asynchronous
+    preset `PRE = async_reset`, `D = 0` for the first and `D = rst_meta` for the second, `Q` of the second is the
+    domain's reset. -/
+structure ARSState where
+  m1   : Bool
+  rst  : Bool
+deriving DecidableEq, Repr
+
+/-- One instant: `a` = level of the asynchronous reset input, `tick` = the domain's clock has an edge. -/
+def arsStep (s : ARSState) (tick a : Bool) : ARSState :=
+  if a then ⟨true, true⟩ else if tick then ⟨false, s.m1⟩ else s
+
+/-- The domain reset the registers see in an instant (the preset acts asynchronously). -/
+def arsOut (s : ARSState) (a : Bool) : Bool := a || s.rst
+
+/-- `ClockDomainCrossing(with_common_rst=True)` with real reset synchronisers: the FIFO and the two synchronisers. -/
+structure CRState (α : Type) where
+  f  : AFState α
+  aw : ARSState
+  ar : ARSState
+
+/-- One instant; `a` = `ResetSignal(cd_from) | ResetSignal(cd_to)`. -/
+def crStep (k : Nat) (b : Bool) (z : α) (S : CRState α) (i : AFIn α) (a : Bool) : CRState α :=
+  { f  := afStepR2 k b z S.f i (arsOut S.aw a) (arsOut S.ar a)
+    aw := arsStep S.aw i.tw a
+    ar := arsStep S.ar i.tr a }
+
+/-- A schedule with the raw reset held at level `a`. -/
+def crRun (k : Nat) (b : Bool) (z : α) (a : Bool) (S : CRState α) : List (AFIn α) → CRState α
+  | [] => S
+  | i :: is => crRun k b z a (crStep k b z S i a) is
+
+/-- What a freshly initialised FIFO would have to be fed to do the same: the producer is held off while the write
+    domain is still in reset, the consumer while the read domain is. -/
+def crMasked (aw ar : ARSState) : List (AFIn α) → List (AFIn α)
+  | [] => []
+  | i :: is => { i with valid := i.valid && !aw.rst, ready := i.ready && !ar.rst } ::
+      crMasked (arsStep aw i.tw false) (arsStep ar i.tr false) is
+
 end Litex.Cdc
